@@ -17,7 +17,7 @@ PROP = dict(
     theorems=[T + n for n in ["writer_both", "pub_refused_no_effect", "pub_allowed_accepted"]],
     streams=[world.world_stream("C03")],
     seeds=dict(quick=1, thorough=4),
-    rule="random histories of 30-120 requests per case (200 cases quick, 500 thorough per seed) over 4 users, 7 sessions (two per user, "
+    rule="random histories of 30-120 requests per case (400 cases quick, 600 thorough per seed, every fourth a clause scenario with random parameters) over 4 users, 7 sessions (two per user, "
          "one background, one anonymous, one root acting for others) and up to 3 group topics, a third of the cases with one injected "
          "store failure per request, a third with crash points and restarts; non-trivial = every request line",
     assumptions=world.WORLD_ASSUMPTIONS,
